@@ -241,9 +241,12 @@ fn check_exit_status(ctx: &Ctx, judgements: &[DocJudgement], out: &mut Vec<Viola
         let mut nf = 0;
         let mut nk = 0;
         let mut total = 0;
+        // (a detached test case may or may not have a result: at most one)
+        let mut detached = 0;
         for (d, j) in obs.docs.iter().zip(judgements.iter()) {
             for tj in &j.tests {
                 if tj.detached {
+                    detached += 1;
                     continue;
                 }
                 total += 1;
@@ -262,14 +265,14 @@ fn check_exit_status(ctx: &Ctx, judgements: &[DocJudgement], out: &mut Vec<Viola
                 .iter()
                 .all(|t| matches!(t.allowed, Allowed::Exactly(_)))
         });
-        if status != 1 && s + f + k != total {
+        if status != 1 && (s + f + k < total || s + f + k > total + detached) {
             out.push(v(
                 "C20",
                 "summary-does-not-add-up",
                 None,
                 format!("summary says {} succeeded + {} failed + {} skipped, the run has {} test cases with a result", s, f, k, total),
             ));
-        } else if status != 1 && exact && (s, f, k) != (ns, nf, nk) {
+        } else if status != 1 && exact && detached == 0 && (s, f, k) != (ns, nf, nk) {
             out.push(v(
                 "C20",
                 "summary-miscounts",
